@@ -222,7 +222,9 @@ def from_dataset(
     """
     try:
         items = list(examples.items())
-    except ItemsNotDefined:
+    except (ItemsNotDefined, NotImplementedError):
+        # NotImplementedError: a dataset (e.g. a slice) asked an input
+        # without keys for its keys.
         return from_list(list(examples),
                          immutable_warranty=immutable_warranty, name=name)
     else:
